@@ -160,7 +160,7 @@ def inGetter? : String → Option InGetter
 /-- jet name → how its arguments become queries -/
 inductive Kind where
   | nullary (g : G0) | current (g : InGetter) | input (g : InGetter) | output (g : OutGetter)
-  | nullDatum | tappath | totalFee | checkLock (k : LockKind)
+  | nullDatum | tappath | totalFee | checkLock (k : LockKind) | issuance
 
 def kind? (name : String) : Option Kind :=
   match name with
@@ -174,6 +174,7 @@ def kind? (name : String) : Option Kind :=
   | "tx_lock_distance" => some (.nullary .txLockDistance)
   | "tx_lock_duration" => some (.nullary .txLockDuration)
   | "check_lock_height" => some (.checkLock .height) | "check_lock_time" => some (.checkLock .time)
+  | "issuance" => some .issuance
   | "check_lock_distance" => some (.checkLock .distance)
   | "check_lock_duration" => some (.checkLock .duration)
   | "output_asset" => some (.output .asset) | "output_amount" => some (.output .amount)
@@ -199,6 +200,7 @@ def query? (k : Kind) (arg : String) : Option Query :=
   | .output g => arg.toNat?.map fun i => .output g (UInt32.ofNat i)
   | .tappath => arg.toNat?.map fun i => .tappath (UInt8.ofNat i)
   | .checkLock k => arg.toNat?.map fun x => .checkLock k x
+  | .issuance => arg.toNat?.map fun i => .issuance (UInt32.ofNat i)
   | .totalFee => ((hexChars arg.toList).bind mk32).map .totalFee
   | .nullDatum =>
     match arg.splitOn ":" with
